@@ -52,6 +52,9 @@ def core_tie(O):
         cfg = vlib.default_config()
         if rng.random() < 0.3:
             cfg["localVarPrefix"] = rng.choice(["t", "zz", "abcdef"])
+        if rng.random() < 0.2:
+            # the plus operator not configured: sums stay where they are (Sem.rw's plus_on = false)
+            cfg["csiMethods"] = [m for m in cfg["csiMethods"] if m.get("src") != "plusOperator"]
         cs.append({"id": "c01core-%d" % i, "config": cfg, "calls": [{"code": coregen.program(O.seed, i), "file": "core.js"}], "opts": {}})
     results = C.run_cases(cs, "model,semtie", "c01core")
     tally = collections.Counter()
